@@ -50,8 +50,22 @@ func parseRender(md goldmark.Markdown, src []byte) (res convResult) {
 	return
 }
 
+// convArena is the recycled read buffer of this worker: every third Convert issued through convert() reads its document from
+// it (the previous occupant is overwritten), as a caller does that reuses one buffer for all requests. The output of a
+// conversion does not depend on where its source lives, so no oracle changes; whatever goldmark keeps of a source beyond
+// the call (and later reads) is stale here. Not used in the race build, whose conversions run concurrently.
+var (
+	convArena srcArena
+	convTick  uint32
+)
+
 // convert runs md.Convert under recover().
 func convert(md goldmark.Markdown, src []byte) (res convResult) {
+	if !raceEnabled {
+		if convTick++; convTick%3 == 0 {
+			src = convArena.load(src)
+		}
+	}
 	res.Phase = "convert"
 	defer func() {
 		if p := recover(); p != nil {
